@@ -109,6 +109,9 @@ def call(I, ctx, fr, fv, args, kwargs, node, star):
     from . import models as M
     from .interp import VSpecFn
     if isinstance(fv, VSpecFn):
+        if star is not None:
+            kwargs = dict(kwargs)
+            kwargs['__star__'] = star
         return fv.fn(I, ctx, *args, **kwargs)
     if fr.spec and not isinstance(fv, (VBuiltin, VClass, VMethod, VRepoFunc, VBound)):
         raise Unsupported('call of %r inside a spec expression' % (fv,), node)
